@@ -240,14 +240,29 @@ def r2_colours(ctx):
             ok, vals = False, "not foldable"
         ctx.ob(rid, "opposite_turn|swaps", ok, "" if ok else "opposite_turn maps WHITE/BLACK to %s" % vals, ctx.where(f))
     f, ps = ret_of(BB + "_is_in_check_by_bits")
-    if not ps or len(ps) != 2:
-        ctx.lost(rid, "_is_in_check_by_bits: two paths (colour == WHITE or not)")
+    if not ps:
+        ctx.lost(rid, "_is_in_check_by_bits (loop-free paths)")
         return
+    # every answer comes from the reverse lookup: a path that answers by itself (an early `return false` for a
+    # "harmless" material configuration) skips the king-adjacency and all other attacker tests
+    shortcuts = []
+    for pe in ps:
+        t = pe.ret()
+        if not (t[0] == "call" and t[1] == BB + "_is_square_in_check"):
+            extra = ["%s is %s" % (show(d)[:80], "true" if c != ("in", (0,)) else "false") for (d, c, b, ty) in pe.conds if not (d[0] == "bin" and d[1] == "Eq" and ("param", 2) in (d[2], d[3]))]
+            shortcuts.append("returns %s when %s" % (show(t)[:40], " and ".join(extra) or "-"))
+    ctx.ob(rid, "_is_in_check_by_bits|every-answer-from-the-lookup", not shortcuts,
+           "" if not shortcuts else "_is_in_check_by_bits answers without the reverse attack lookup: %s" % "; ".join(sorted(set(shortcuts))[:2]), ctx.where(f), sample={"paths": len(ps)})
+    ps = [pe for pe in ps if pe.ret()[0] == "call" and pe.ret()[1] == BB + "_is_square_in_check"]
+    seen_colours = set()
     for pe in ps:
         white = None
         for (d, c, b, ty) in pe.conds:
             if d[0] == "bin" and d[1] == "Eq" and ("param", 2) in (d[2], d[3]):
                 white = c != ("in", (0,))
+        if white in seen_colours:
+            continue
+        seen_colours.add(white)
         t = pe.ret()
         me, other = ("white", "black") if white else ("black", "white")
         ok = False
@@ -295,6 +310,44 @@ def r3_evaluator(ctx):
     ok = not bad and mates == 2 and draws >= 1
     ctx.ob(rid, "mate-needs-check-and-no-moves", ok, "" if ok else "; ".join(bad) or "expected two mate branches and a draw branch (found %d/%d)" % (mates, draws), ctx.where(f),
            sample={"mate_paths": mates, "stalemate_paths": draws})
+    # converse: whenever there is no legal move and the side to move is in check, the answer is a mate score - also
+    # on paths that never looked at one of the two facts (a draw rule hoisted in front of the terminal branch)
+    missing = []
+    for pe in pes:
+        conds = {d: c for (d, c, b, ty) in pe.conds}
+        lmr = conds.get(("param", 4))
+        in_check = None
+        others = []
+        for d, c in conds.items():
+            if d[0] == "call" and d[1].endswith("Bitboard::is_current_in_check"):
+                in_check = c != ("in", (0,))
+            elif d != ("param", 4) and not any(x[0] == "f" and x[2] == "turn" for x in leaves(d)):
+                others.append("%s is %s" % (show(d)[:70], "true" if c != ("in", (0,)) else "false"))
+        compatible_with_mate = (lmr is None or lmr == ("in", (0,))) and (in_check is None or in_check is True)
+        # the side to move is WHITE or BLACK: a path that has excluded both is not a path
+        turn_conds = [(d, c) for d, c in conds.items() if any(x[0] == "f" and x[2] == "turn" for x in leaves(d))]
+        if turn_conds:
+            feasible = False
+            for tv in (0, 1):
+                good = True
+                for d, c in turn_conds:
+                    m = {x: ("c", tv, "u8", None) for x in leaves(d) if x[0] == "f" and x[2] == "turn"}
+                    try:
+                        v = fold(subst(d, m))
+                    except Unfoldable:
+                        continue
+                    if (v in c[1]) != (c[0] == "in"):
+                        good = False
+                feasible = feasible or good
+            if not feasible:
+                continue
+        r = pe.ret()
+        is_mate_score = any(x[0] == "call" and x[1].rsplit("::", 1)[-1] in ("win_score", "loss_score") for x in leaves(r))
+        if compatible_with_mate and not is_mate_score:
+            missing.append("returns %s %s" % (show(r)[:60], ("when " + " and ".join(others)) if others else "without looking at the legal-move flag / the check test"))
+    ctx.ob(rid, "checkmate-always-scored-as-mate", not missing,
+           "" if not missing else "a checkmated side to move (no legal move, in check) can be valued otherwise: the evaluator %s - another rule (fifty-move / material draw) takes precedence over checkmate" % "; ".join(sorted(set(missing))[:2]),
+           ctx.where(f), sample={"paths": len(pes)})
     # the search hands `legal_moves_remaining = false` only when no legal move was found
     ctx.ob(rid, "paths-enumerated", len(pes) >= 5, "" if len(pes) >= 5 else "only %d paths" % len(pes), ctx.where(f), sample={"paths": len(pes)})
 
